@@ -14,10 +14,24 @@ def J(pkg, harness, **params):
 
 def c14_jobs(tier):
     jobs = [J("ast", "ZZ_C14_req", kind=k) for k in range(5)]
+    jobs += [J("ast", "ZZ_C14_rsp", rsp=r, req=q) for r in range(3) for q in range(7)]
+    jobs += [J("ast", "ZZ_C14_type")]
+    jobs += [J("ast", "ZZ_C14_generic", len=n) for n in range(0, 14)]
+    return jobs
+
+
+def c13_jobs(tier):
+    jobs = [J("ast", "ZZ_C13_header", typ=t) for t in range(14)]
+    jobs += [J("ast", "ZZ_C13_bytelen", typ=t) for t in range(14)]
     return jobs
 
 
 PROPS = {
+    "C13": dict(jobs=c13_jobs, must_reach=["end"],
+                level_text="Bounded model checking: the element count is one symbolic 64-bit integer (0 <= n < 2^40), so the limit test and the length header are decided for every size at once, per format.",
+                level_note="Trusted: go/ssa, engine, z3. Counts >= 2^40 (no such slice can exist) are outside.",
+                bounds={"n": "symbolic, 0 <= n < 2^40", "formats": 14},
+                outside=["executing element loops of items above the materialised sizes"]),
     "C14": dict(jobs=c14_jobs,
                 level_text="Bounded model checking by symbolic execution of the real constructors, Type() and decoder: loop-free code over 10-byte headers, every field value symbolic, so each assertion is decided for all values at once.",
                 level_note="Trusted: go/ssa, the engine's interpreter/simplifier, z3. Precondition len(systemBytes)==4 for the Req constructors.", bounds={"values": "unbounded: session id 16 bit, status/reason/pType/sType 8 bit, 4 system bytes all symbolic"},
